@@ -76,6 +76,9 @@ TripleStr(i, w, o) == "(in " \o Str(i) \o ", w " \o Str(w) \o ", out " \o Str(o)
 PlumbBad(t, gs) ==        \* layers whose exported input precision is not the exported output precision of their producer
     {L \in LayersOf(t) : RecL(t, L).ex_i # Rec(t, HId(t.arch, RefIn(gs, t.arch, L))).ex_o}
 
+\* at the moment of an export(): summary() = exported precisions = arg-max of the raw coefficients, for every module
+MomentSame(r) == /\ r.su_i = r.ex_i /\ r.su_w = r.ex_w /\ r.su_o = r.ex_o
+                 /\ r.su_i = r.am_i /\ r.su_w = r.am_w /\ r.su_o = r.am_o
 GeomSame(t, M) ==
     LET r == Rec(t, M)  g == Geom(t.arch, M) IN
     r.ex_k = g.k /\ r.ex_s = g.s /\ r.ex_d = g.d /\ r.ex_pm = g.pm /\ r.ex_bias = g.bias
@@ -130,6 +133,12 @@ Check02(t) ==
                        \o Str(Rec(t, p).ex_o) \o " bit) but takes the network-input quantiser (" \o Str(RecL(t, L).ex_i) \o " bit) as its input quantiser"
               ELSE "C02.plumb layer " \o Str(L) \o ": exported input precision " \o Str(RecL(t, L).ex_i)
                        \o " but the tensor it consumes is produced by node " \o Str(p) \o " with output precision " \o Str(Rec(t, p).ex_o)
+    ELSE IF \E i \in DOMAIN t.exports : \E j \in DOMAIN t.exports[i].T : ~MomentSame(t.exports[i].T[j])
+         THEN LET i == Least({x \in DOMAIN t.exports : \E j \in DOMAIN t.exports[x].T : ~MomentSame(t.exports[x].T[j])})
+                  j == Least({y \in DOMAIN t.exports[i].T : ~MomentSame(t.exports[i].T[y])})  r == t.exports[i].T[j] IN
+              "C02.summary export() number " \o Str(i) \o " of the history, node " \o Str(r.n) \o ": summary() read right before it (no forward pass in between) reports "
+                  \o TripleStr(r.su_i, r.su_w, r.su_o) \o ", the exported layer has " \o TripleStr(r.ex_i, r.ex_w, r.ex_o)
+                  \o ", the largest coefficients select " \o TripleStr(r.am_i, r.am_w, r.am_o)
     ELSE IF \E M \in Owners(a) : ~GeomSame(t, M)
          THEN LET M == Least({x \in Owners(a) : ~GeomSame(t, x)})  r == Rec(t, M)  g == Geom(a, M) IN
               "C02.geometry layer " \o Str(M) \o ": exported (k " \o Str(r.ex_k) \o ", stride " \o Str(r.ex_s) \o ", dilation " \o Str(r.ex_d)
